@@ -1,7 +1,5 @@
 """C20 — journaling observes without interfering and always restores the classes.
 
-(see the decision log at the end of this docstring; it is kept current)
-
 Decided by
   * Coq theorems (coq/theories/C20/Property.v) over the hand model C20/Model.v and the tables
     Gen/C20Gen.v that `generate` re-extracts from /repo/src/onnx_ir/journaling/_wrappers.py and
@@ -12,13 +10,109 @@ Decided by
       restored = the assignments of restore_ir_classes            [(slot written, key read)]
     plus, per wrapper factory, the statement list of its inner `wrapper` (WRead/WRecord/WCall/
     WCallRet — i.e. "record then call" vs "call then record" and whether the result is returned).
-    Journal.__enter__/__exit__/record and JournalEntry are pinned by normalised-AST digest (the
-    hand model of enter/exit in Model.v is a transcription of exactly that text).
-  * a correspondence check (three runs of every generated scenario on the real implementation:
-    plain / journaled / journaled-over-a-tracer) whose observations are compared (a) directly,
-    journaled vs plain, and (b) inside Coq against `run` of the model (entries per journal, table
-    restored, current journal restored, no `wrong` flag).
-  * the property oracle (`oracle`), the same statement written against public API only.
+    Journal.__enter__/__exit__/record/__init__ and the JournalEntry fields are pinned by
+    normalised-AST digest (the hand model of enter/exit in Model.v transcribes exactly that text).
+  * a correspondence check: every generated scenario is run three times on the real implementation
+    (plain / journaled / journaled over a harness tracer installed beneath the journals); the
+    observations are compared (a) directly, journaled vs plain, and (b) inside Coq against `run` of
+    the model (entries per journal with object handles, classes restored, current journal restored,
+    escaping exception, number of executed operations, no `wrong` flag).
+  * the property oracle (`oracle`): the statement itself against public API only.
+
+DECISION LOG
+Model (C20/Model.v).  Class table slot -> impl, impl := Orig s | Wrapped j patch impl.  `enter` =
+  Journal.__enter__ (snapshot the saved list, install one wrapper per generated patch around
+  snapshot[key], remember snapshot and previous journal in the journal), `exit_` = Journal.__exit__
+  (assign every generated restore pair from the journal's snapshot, current := previous).  The slot a
+  wrapper is installed in and the dict key it wraps are extracted independently (assignment target vs
+  string literal), so "restored from the wrong key"/"wrapped around another method's original" are
+  visible to the proofs.  Library code is a `body` (free monad with heap effects and *dispatched*
+  calls that go through the table; continuations receive the callee's outcome, so callers may
+  catch/branch), user code a `prog` (operations, `with` blocks nested arbitrarily, raise, try/except).
+  Journal records form one chronological log of (journal, (operation, object)); `proj j` is
+  Journal.entries.
+Theorems (all proved, closed under the global context, no bounds):
+  C20_lists_ok            the generated lists are coherent (patched ⊆ restored ⊆ saved with matching
+                          keys; every wrapper calls the original exactly once and returns its result
+                          wherever a caller can see it) — vm_compute on the lists of the source NOW.
+  C20_records_once        every wrapper records exactly once on the path of a call that returns.
+  C20_restore             for every prog (any nesting depth, exceptions anywhere, try/except anywhere)
+                          from ANY table: table and current journal after = before.  Hypothesis wf: a
+                          Journal object is not re-entered while it is active.
+  C20_reentrant_use_not_restored   wf is necessary: `with j: with j: pass` leaves the classes wrapped
+                          (model; the implementation agrees — probe `reentry`; recorded as an
+                          observation, not a violation: "properly nested journals" is read as nesting of
+                          DISTINCT journal objects, the weaker reading).
+  C20_wrapped_call        one wrapper around an original = the original (heap, observable result or
+                          exception) + exactly one entry of that journal when the call returns.
+  C20_transparent         run (journaled) = run_plain on heap, list of operation results, exception;
+                          `wrong` never set; every journal contains exactly prog_entries (entries of the
+                          operations executed while it was active, in program order).
+  C20_entries_count       #entries of a body = #completed instrumented calls + #failed instrumented
+                          calls whose wrapper records first.
+Reading adopted for "one entry per completed instrumented operation" when the original raises:
+  _setter_wrapper/_method_wrapper/_container_method_wrapper record BEFORE calling the original, so a
+  call that raises still leaves an entry; _init_wrapper records after, so a failed __init__ leaves
+  none.  The property is read as "every completed call has exactly one entry, entries are in program
+  order; failed calls may also have one" (weaker reading; exact count in C20_entries_count; the oracle
+  only requires exactly one matching entry for each COMPLETED top-level instrumented operation).
+  Program order for nested calls: record-first wrappers give call order, __init__ gives return order
+  (a Node's set_attribute entries precede its init entry) — that is what body_entries defines.
+Tie (measured on the unchanged tree, quick tier, seed 0: 301 scenarios x 3 runs, ~7500 operations,
+  all 43 patched slots exercised with returning calls, 35 of them also with raising calls; nesting
+  depth 0..4; ~2/3 of the scenarios leave at least one journal by exception):
+  (i)   plain vs journaled: per-operation result/exception type, digest of a canonical IR snapshot
+        (public accessors) after every operation, final snapshot, escaping exception;
+        LazyTensor evaluation counters are part of the snapshot (repr in details must not load).
+  (ii)  at every `with` exit: identity of EVERY attribute of EVERY class of _core and
+        _graph_containers (properties as fget/fset/fdel/doc) vs before the enter; current journal.
+  (iii) after the journaled run: drop all IR objects, gc.collect(), every entry.ref() is None.
+  (iv)  traced run -> Coq case files: the scenario as a `prog` whose operation bodies are the call
+        forests the tracer saw; `agree` = model's restoration verdict equals the observed one, same
+        escaping exception, same number of executed operations, and for every journal
+        proj j (log) = observed [(operation, object handle)].
+  Nondeterministic IR operations (iteration over a frozenset of nodes in Graph.remove when it fails
+  half way: C01/C06's business) are recognised by re-running: a plain/journaled difference counts as
+  interference only if 6 plain and 6 journaled runs have disjoint behaviours.
+Modelled, not verified: purity of details_func/repr/getattr inside wrappers (exercised by (i) — and
+  this is exactly where the finding below was), weakref/traceback/time, determinism of the originals,
+  hooks (user callbacks), threads.
+Findings
+  node-init-graph-kwarg-repr-in-journal (FIXED by /repo 3fc58a7, proposed_fixes/C20-node-init-graph-repr.diff):
+    ir.Node(..., graph=g) inside a journal raised AttributeError because the Graph.append wrapper took
+    repr(node) before Node.__init__ had set doc_string.  Found by (i); witness kept in corpus/C20.
+Mutants of /repo tried (scratch worktree, VERIF_REPO) — see the table at the end of this docstring.
+
+MUTANTS (each applied to a scratch worktree of /repo, `VERIF_REPO=... harness.main C20 quick`, seed 0; all
+10 reported VIOLATION, 9 with a concrete shrunk replay):
+  M1  restore_ir_classes forgets Graph.sort            -> proof C20_lists_ok breaks; oracle: `with j: pass`
+                                                           leaves _core.Graph.sort wrapped (identity check)
+  M2  restore Node.append from original_methods["Node.prepend"]
+                                                        -> C20_lists_ok breaks; oracle: Node.append not restored
+                                                           AND later n.append(...) inserts at the wrong side
+  M3  _container_method_wrapper drops `return`         -> C20_lists_ok (wrapper_ok) breaks; oracle: g.inputs.pop()
+                                                           returns None under a journal
+  M4  __exit__ restores only when exc_type is None     -> extractor rejects (pinned Journal.__exit__); oracle:
+                                                           `with j: raise` leaves every class wrapped
+  M5  record() also appends obj to a list on the journal -> extractor rejects (pinned record); oracle: entries
+                                                           reach their objects after gc (strong reference)
+  M6  Graph.extend details_func = repr(list(nodes))    -> nothing static (lambdas are modelled-not-verified);
+                                                           tie (i): a generator argument is consumed, IR differs
+  M7  _init_wrapper records before calling __init__    -> proofs still hold (order is regenerated, property does
+                                                           not depend on it); tie (i): repr of an uninitialised
+                                                           object raises AttributeError only under a journal
+  M8  __exit__ sets _current_journal = None            -> extractor rejects; oracle: after an inner journal the
+                                                           current journal is not the outer one
+  M9  new wrapper for Node.replace_input_with, saved, never restored
+                                                        -> C20_lists_ok breaks; oracle: attribute left wrapped
+  M10 _setter_wrapper swallows ValueError of the setter -> extractor rejects (unsupported wrapper statement);
+                                                           no failing input exists in the alphabet (no IR setter
+                                                           raises ValueError): VIOLATION no-failing-input-found
+Harness bugs found on the way (kept here because they shaped the checks): public IR classes have
+  __module__ == "onnx_ir" (class enumeration must go by package, or identity checks are vacuous); the
+  observation of an operation must be keyed by its syntactic position (operations skipped by an exception
+  have none); bare `discriminate` in a section with `lists_ok = true` in context "proves" anything once the
+  generated lists are incoherent — proofs use `discriminate C` so that the break is located at C20_lists_ok.
 """
 
 from __future__ import annotations
@@ -1343,11 +1437,11 @@ Definition Wi := @PWith unit Z.
 Definition Tr := @PTry unit Z.
 Definition Th := @PThrow unit Z.
 Definition Pe := @PRet unit Z.
-Definition case := (prog unit Z * (option exn * nat) * list (nat * list (string * Z)))%type.
+Definition case := (prog unit Z * (option exn * nat * bool) * list (nat * list (string * Z)))%type.
 Definition agree (c : case) : bool :=
-  let '(p, (oexp, nres), obs) := c in
+  let '(p, (oexp, nres, restored_ok), obs) := c in
   let '(st', _, rs, o, l) := run unit Z 0%Z p st0 tt in
-  pristine st' && option_eqb exn_eqb o oexp && Nat.eqb (List.length rs) nres
+  Bool.eqb (pristine st') restored_ok && option_eqb exn_eqb o oexp && Nat.eqb (List.length rs) nres
   && forallb (fun je => list_eqb entry_eqb (proj (fst je) l) (snd je)) obs.
 """
 
@@ -1408,7 +1502,8 @@ def coq_prog(scn: list, ops: list) -> str:
 def coq_case(scn, d) -> str:
     obs = clist(f"({j}%nat, {clist(f'({_cs(r[0])}, {cZ(r[3])})' for r in rows)})" for j, rows in sorted(d["entries"].items()))
     esc = "None" if d["escaped"] is None else f"(Some {d['escaped']})"
-    return f"({coq_prog(scn, d['ops'])},\n   ({esc}, {len(d['ops'])}%nat), {obs})"
+    restored_ok = "true" if not d["restore_bad"] and not d["cur_bad"] else "false"
+    return f"({coq_prog(scn, d['ops'])},\n   ({esc}, {len(d['ops'])}%nat, {restored_ok}), {obs})"
 
 
 def correspondence(ck, cases: list) -> list[int]:
@@ -1508,6 +1603,13 @@ def shrink(scn: list, fails, budget: int = 400) -> list:
     return cur
 
 
+def _cat(b: str) -> str:
+    for c in ("interference", "not restored", "current journal", "entries", "strong reference"):
+        if b.startswith(c):
+            return c
+    return b.split(":")[0]
+
+
 def _known_key(ck, bad: list[str], site: dict | None) -> str | None:
     """A failing scenario is a known finding only if ALL its failures are the consequences of a first
     divergence at a known site (anything about restoration, entries, references is never excused)."""
@@ -1536,11 +1638,11 @@ def report(ck, scn, bad, site, kind="oracle") -> bool:
     if key:
         ck.known_finding(key, next(k["what"] for k in ck._known if k["key"] == key))
         return False
-    sig = bad[0].split(":")[0]
+    sig = _cat(bad[0])
 
     def same(s):
         b, st = oracle_full(s)
-        return any(x.split(":")[0] == sig for x in b) and not _known_key(ck, b, st)
+        return any(_cat(x) == sig for x in b) and not _known_key(ck, b, st)
     small = shrink(scn, same)
     b2, st2 = oracle_full(small)
     if not b2:
@@ -1612,8 +1714,10 @@ def run(ck) -> None:
         # the traced run is self-contained (its entries and its call forest come from the same run); when it
         # is the same run as the journaled one, both must have recorded the same entries
         if d["results"] == c["results"] and d["snaps"] == c["snaps"]:
-            ec = {j: [r[:3] for r in rows] for j, rows in c["entries"].items()}
-            ed = {j: [r[:3] for r in rows] for j, rows in d["entries"].items()}
+            # (operation, class) sequences only: object identity is compared exactly in the traced run (which
+            # keeps every object alive); in the pure journaled run id()s of dead objects are reused
+            ec = {j: [r[:2] for r in rows] for j, rows in c["entries"].items()}
+            ed = {j: [r[:2] for r in rows] for j, rows in d["entries"].items()}
             if ec != ed:
                 bad.append("entries: journaled run and journaled-over-tracer run recorded different entries")
         for r in d["restore_bad"]:
@@ -1664,7 +1768,7 @@ def run(ck) -> None:
     seen = set()
     for scn, bad, site in failures:
         key = _known_key(ck, bad, site)
-        sig = key or bad[0].split(":")[0]
+        sig = key or _cat(bad[0])
         if sig in seen:
             continue
         if report(ck, scn, bad, site) or key:
